@@ -1,6 +1,6 @@
 """What is claimed, per property.  bin/gen-manifest turns this into MANIFEST.json."""
 
-HOOK_COMMITS = []
+HOOK_COMMITS = ["446ecfe"]
 
 NOTES = ("One TLA+ specification (spec/) decides every claimed property; TLC is the oracle in both binding directions "
          "(replay of TLC-emitted cases on the real code, TLC validation of traces logged from the real code). "
@@ -146,6 +146,15 @@ CHECKS = {
               "(addressable and non-addressable) and compares output, error, panic and the logged invocations."),
         note="Exhaustive over the bounded configuration space; map-key position and v1 legacy method semantics excluded.",
         design_ref="5 (C17), 4.6"),
+    "C18": dict(
+        technique="TLA+ pool model (ownership, reset/exit discipline) checked by TLC over all interleavings; stateful TLC trace validation of pool events logged by verif hooks (incl. post-reset residue); TLC validation of call histories against isolated references; race detector",
+        text=("Pools.tla models coders being taken, reset, dirtied (normal, error and recovered-panic exits) and returned; TLC proves exclusive ownership and that no call starts on residue that can "
+              "influence it, for 3 goroutines and 2 objects. The hooks under build tag verif log each hand-out (after reset, with buffered bytes, open containers, names, namespaces, tracked "
+              "pointers and peek/offset residue) and each return; Trace_Pools steps the model through the logged events and rejects a hand-out of a held object, a return of an idle one, or any "
+              "non-zero residue. 29 call descriptors are run alone in fresh processes and then in shuffled sequential histories and on 16 goroutines under -race; Trace_Iso requires every result to "
+              "equal its isolated reference, returned data to be intact at the end (inputs overwritten), and zero race reports."),
+        note="Sampled histories; Deterministic across processes is covered by references coming from separate processes; StringCache contents and buffer capacities are benign residue by design.",
+        design_ref="5 (C18), 4.7, 6 (H1)"),
     "C19": dict(
         technique="TLA+ option store with setters and JoinOptions; TLC-checked grouping/last-wins/V2-cancels laws over all setter sequences; exhaustive replay on GetOption under 7 groupings; TLC trace validation of behavioural clauses (irrelevant options, call-scoped options, v1 == v2+DefaultOptionsV1)",
         text=("Options.tla models JoinOptions/GetOption as a map where later entries override earlier ones, with the composite setters made explicit. TLC proves for every sequence (all 73 "
